@@ -73,7 +73,8 @@ isal_sha1_ctx_mgr_submit(ISAL_SHA1_HASH_CTX_MGR *mgr, ISAL_SHA1_HASH_CTX *ctx_in
         *ctx_out = _sha1_ctx_mgr_submit(mgr, ctx_in, buffer, len, flags);
 
 #ifdef SAFE_PARAM
-        if (*ctx_out != NULL &&
+        /* Only the context submitted by this call can have been rejected by it */
+        if (*ctx_out == ctx_in &&
             (ISAL_SHA1_HASH_CTX *) (*ctx_out)->error != ISAL_HASH_CTX_ERROR_NONE) {
                 ISAL_SHA1_HASH_CTX *cp = (ISAL_SHA1_HASH_CTX *) (*ctx_out);
 
